@@ -44,8 +44,14 @@ func (_ dimensionSetter) UpdateProperties(po tabular.PropertyOwner) error {
 		height:    cell.Height(),
 	}
 
-	linesWidths := make([]decoration.WidthString, dims.height)
-	for i, l := range cell.Lines() {
+	lines := cell.Lines()
+	lineCount := dims.height
+	if len(lines) > lineCount {
+		// a declared height smaller than the text still shows all the text
+		lineCount = len(lines)
+	}
+	linesWidths := make([]decoration.WidthString, lineCount)
+	for i, l := range lines {
 		linesWidths[i] = decoration.WidthString{
 			S: l,
 			W: length.StringCells(l),
